@@ -14,6 +14,7 @@ from ..lib import call
 
 PROP = "C15"
 PLAN = {"quick": (480, 500), "thorough": (8000, 3600)}
+STEP_BUDGET = 60_000_000  # Intersection of two multi-span cubics legitimately needs ~1e7 loop line events
 WITH_REPO_TESTS = True  # thorough tier also runs the repository's own suite under M1 / M3 / M4
 RULE = ("case = 2-3 initial curves (two of them built from the same KnotVector object, one a copy) + a program of 5-25 "
         "(quick) / up to 40 (thorough) symbolic public Curve operations, ~30% with invalid arguments (nodes outside, both "
@@ -25,6 +26,7 @@ ANCHORS = ["BaseCurve.update", "BaseCurve.apply", "BaseCurve.__copy__", "Curve.k
 MIN_COUNTERS = {"steps": 1000, "raised_steps": 150, "mutations_ok": 300, "sibling_checks": 1000}
 ASSUMPTIONS = ["apply(matrix) with a malformed matrix and direct mutation of curve.knotvector's KnotVector object are outside the statement"]
 
+PRESERVING = {"insert", "deg_inc", "knot_clean", "degree_clean", "clean", "set_knotvector", "update"}
 MUT = ["insert", "remove", "knot_clean", "deg_inc", "deg_dec", "deg_set", "degree_clean", "clean", "fit_curve", "fit_points",
        "fit_function", "set_ctrlpoints", "set_weights", "set_knotvector", "update"]
 PURE = ["eval", "split", "join", "arith", "eq", "fraction", "copy", "derivate", "integrate", "projection", "intersection", "str"]
@@ -84,6 +86,12 @@ def run_case(case, ctx):
             continue
         snaps = [(c, lib.curve_digest(c)) for c in pool]
         pre = lib.curve_digest(t)
+        rc_before = None
+        if op in PRESERVING and t.ctrlpoints is not None:
+            try:
+                rc_before = lib.to_rc(t)
+            except Exception:
+                rc_before = None
         ks = list(t.knotvector.knots)
         umin, umax = ks[0], ks[-1]
         p = t.degree
@@ -244,13 +252,31 @@ def run_case(case, ctx):
             raised += 1
             ctx.count("raised_steps")
             if isinstance(o.exc, lib.StepBudgetExceeded):
-                ctx.count("step_budget_hits")  # termination belongs to C19
+                ctx.count(f"step_budget_hits:{op}")  # termination belongs to C19
                 return
             ctx.check(post == pre, f"atomic:{op}:{o.exc_name}", f"{op} raised {o.brief()} but the curve changed", before=lib.short(pre, 300), after=lib.short(post, 300))
         else:
             if mutating:
                 okmut += 1
                 ctx.count("mutations_ok")
+                # whatever happened before in this program: the library's evaluation must agree with the observable
+                # state, and function-preserving operations must preserve the function
+                if t.ctrlpoints is not None and attach.curve_invariant(t) is None:
+                    try:
+                        rc_after = lib.to_rc(t)
+                    except Exception:
+                        rc_after = None
+                    if rc_after is not None and (exact or gen.well_conditioned(rc_after.U, rc_after.W)):
+                        ctx.count("eval_vs_state_checks")
+                        cv.lib_eval_matches(ctx, t, rc_after, exact, f"sequence:{op}", n=2, rel=1e-8)
+                        if rc_before is not None and not (bad and op in ("set_knotvector", "update")):
+                            d = cv.function_diff(rc_before, rc_after, exact, 1e-8)
+                            if d is not None and op in ("knot_clean", "degree_clean", "clean"):
+                                from .c05 import deviation_ok
+
+                                deviation_ok(ctx, rc_before, rc_after, F(1, 10**9), exact, f"sequence:function:{op}", f"{op} in a sequence changed the curve beyond its tolerance ({d})")
+                            else:
+                                ctx.check(d is None, f"sequence:function:{op}", f"{op} in a sequence changed the curve: {d}")
             else:
                 ctx.check(post == pre, f"pure-modified:{op}", f"non mutating {op} changed its receiver", before=lib.short(pre, 300), after=lib.short(post, 300))
         # nobody else moved
